@@ -116,3 +116,11 @@ class ScriptOptC(ScriptOpt):
 
 
 OPT_CLASSES = [ScriptOptA, ScriptOptB, ScriptOptC]
+
+
+def score_of_k(params):
+    return [3.0, -1.0, 2.0][int(params.get('k', 0)) % 3]
+
+
+def const_score(params):
+    return 1.0
